@@ -433,6 +433,10 @@ def restore_function(q: str, node: ast.AST, log: list[str]) -> None:
     _restore_shapes(q, node, log)
     if q in tab or q in _inventory():
         _inline_new_temps(q, node, {k[0] for k in tab.get(q, [])}, log)
+    n0 = len(log)
+    _restore_names(q, node, tab, log)
+    if len(log) > n0:
+        _restore_shapes(q, node, log)
 
 
 def restore(tree: ast.Module, modname: str, log: list[str]) -> None:
@@ -445,6 +449,13 @@ def restore(tree: ast.Module, modname: str, log: list[str]) -> None:
         _restore_shapes(q, node, log)
         if q in tab or q in _inventory():
             _inline_new_temps(q, node, {k[0] for k in tab.get(q, [])}, log)
+    # second pass: a binding whose signature differed only by an explaining temporary, an argument style or a comparison
+    # orientation equals the recorded one now
+    for q, node in list(_functions(tree, modname)):
+        n0 = len(log)
+        _restore_names(q, node, tab, log)
+        if len(log) > n0:
+            _restore_shapes(q, node, log)      # shapes that are recorded with the inventory names (x op= e, argument style)
 
 
 def _restore_names(q: str, node: ast.AST, tab: dict, log: list[str]) -> None:
